@@ -956,3 +956,28 @@ def _is_content_hash(g):
                 seen.add(s2)
                 st.append(s2)
     return True
+
+
+def r3d_who_reads(ctx):
+    r = Result("R3d-v", "a stamped cache is read (get / iter / contains) only by functions that also store into it (its fill "
+                        "functions and the helpers spliced into them): a derived result consulted from elsewhere -- the resolver "
+                        "answering from the per-file availability list -- brings the tie-breaks of the computation behind that cache "
+                        "into an answer that is defined without it, and the answer then depends on which request came first")
+    db = _db(ctx)
+    n = 0
+    for m in sorted(stamped_caches(db)):
+        setters = {op.fn.root for op in db.ops_by_map.get(m, []) if op.method == "insert"}
+        for op in db.ops_by_map.get(m, []):
+            if op.mode != "S" or op.method in ("len", "is_empty", "capacity"):
+                continue
+            n += 1
+            key = "R3d-v|%s|read by %s" % (m, op.fn.root)
+            if op.fn.root in setters:
+                r.ok(sample={"cache": m, "read_by": op.fn.root.split("::")[-1]} if len(r.samples) < 5 else None)
+            elif key in REVIEWED:
+                r.review(key, REVIEWED[key])
+            else:
+                r.violate(key, "%s reads `%s` (%s) at %s but never stores into it: only %s fill that cache" % (
+                    op.fn.root, m, op.method, ctx.bin.span_str(op.call["span"]), sorted(x.split("::")[-1] for x in setters)))
+    r.floor("reads of stamped caches", n, 3)
+    return r
